@@ -61,8 +61,47 @@ def correspond(ctx):
     viol = []
     for p in c.get('panics', []):
         viol.append(dict(key='panic-in-executor', desc='VMExecutor panicked: %s' % p.get('impl'), replay=p))
+    st = c.get('stats')
+    if isinstance(st, dict):
+        for f in st.get('violations', []) or []:
+            viol.append(dict(key=f.get('key'), desc=f.get('desc'), replay=dict(ops=f.get('replay'))))
     c['violations'] = viol
-    return [c]
+    return [c, _concurrency(ctx)]
+
+
+def _concurrency(ctx):
+    """Evidence, not proof: 4 goroutines executing the corpus blocks on private states must answer what one goroutine
+    answers alone (plain build in quick, -race build in thorough)."""
+    import re
+    import shutil
+    res = dict(name='concurrency-evidence', ok=False, ops=0, mismatches=0, errors=[], violations=[],
+               note='evidence only: concurrent vs sequential execution of the corpus blocks' +
+                    (' under the race detector' if ctx.thorough() else ''))
+    binp, log = vlib.go_build(ctx, vlib.HARNESS, './cmd/c06', 'c06conc', race=ctx.thorough())
+    if not binp:
+        res['errors'].append('build failed: ' + log[-800:])
+        return res
+    cwd = ctx.scratch('c06conc')
+    env = dict(VERIF_SEED=str(ctx.seed), VERIF_CORPUS=os.path.join(vlib.VERIF, 'corpus', ctx.pid), GOMEMLIMIT='8GiB')
+    rc, so, se = vlib.run([binp, 'mode=conc', 'workers=4', 'ops=' + os.path.join(cwd, 'c.ops'), 'obs=' + os.path.join(cwd, 'c.obs')],
+                          cwd=cwd, env=env, timeout=900)
+    shutil.rmtree(cwd, ignore_errors=True)
+    m = re.search(r'CONC workers=(\d+) blocks=(\d+) differing=(\d+)', so)
+    races = (so + se).count('WARNING: DATA RACE')
+    if not m:
+        res['errors'].append('no CONC line: ' + (se or so)[-500:])
+        return res
+    res['ops'] = int(m.group(1)) * int(m.group(2))
+    res['mismatches'] = int(m.group(3))
+    res['stats'] = dict(workers=int(m.group(1)), blocks=int(m.group(2)), differing=int(m.group(3)), data_races=races)
+    for line in so.split('\n'):
+        if line.startswith('FOUND '):
+            f = json.loads(line[6:])
+            res['violations'].append(dict(key=f['key'], desc=f['desc'], replay=dict(ops=f.get('replay'))))
+    if races:
+        res['errors'].append('%d data race reports: %s' % (races, (so + se)[(so + se).find('WARNING: DATA RACE'):][:1200]))
+    res['ok'] = rc == 0 and int(m.group(3)) == 0 and races == 0
+    return res
 
 
 def search(ctx, hints):
